@@ -1,6 +1,7 @@
 package metacmd
 
 import (
+	"encoding/json"
 	"os"
 	"path/filepath"
 	"strings"
@@ -88,4 +89,44 @@ func ScanRaceLogs(c *vf.Ctx) {
 			c.Violation("race:"+top, "data race with a frame in the catalogue / state-machine packages", map[string]any{"report": rep})
 		}
 	}
+}
+
+// KnownSignatures returns the signatures with status "known" recorded for prop. Workers use
+// it only to skip the (expensive) shrinking of witnesses that the parent will not print.
+func KnownSignatures(c *vf.Ctx, prop string) []string {
+	var out []string
+	files, _ := filepath.Glob(filepath.Join(c.VerifDir, "known_findings.d", "*.json"))
+	files = append(files, filepath.Join(c.VerifDir, "known_findings.json"))
+	for _, f := range files {
+		b, err := os.ReadFile(f)
+		if err != nil {
+			continue
+		}
+		var all struct {
+			Findings []vf.Finding `json:"findings"`
+		}
+		if json.Unmarshal(b, &all) != nil {
+			continue
+		}
+		for _, x := range all.Findings {
+			if x.Property == prop && x.Status == "known" {
+				out = append(out, x.Signature)
+			}
+		}
+	}
+	return out
+}
+
+// MatchesKnown applies the vf matching rule (exact, or prefix when the pattern ends in *).
+func MatchesKnown(pats []string, sig string) bool {
+	for _, p := range pats {
+		if strings.HasSuffix(p, "*") {
+			if strings.HasPrefix(sig, strings.TrimSuffix(p, "*")) {
+				return true
+			}
+		} else if p == sig {
+			return true
+		}
+	}
+	return false
 }
